@@ -180,6 +180,8 @@ def _candidates():
     cands.discard("distance")
     cands.update(["", "Euclidean", "euclidean ", "l2", "squared_euclidean_distance", "minkowski"])
     cands.update(NAMES)
+    for nm in NAMES:                       # near-miss spellings of real identifiers are not identifiers
+        cands.update([nm.replace("_", "-"), nm.upper(), " " + nm, nm + "_"] if "_" in nm else [nm.upper(), nm.capitalize()])
     return sorted(cands)
 
 
